@@ -9,6 +9,22 @@ VERIF = os.path.dirname(os.path.dirname(os.path.abspath(__file__)))
 
 # id -> (technique, level category, level text, level note, design ref)
 CHECKS = {
+    'C01': (
+        'metamorphic (schedule-permutation) testing with Hypothesis over '
+        'layout-built images + exhaustive enumeration of the capture engine',
+        'exploration',
+        'Capture engine: every chunking (and empty-chunk insertion) of '
+        'streams up to length 9 (quick) / 12 (thorough) for every region '
+        'offset/length/min_length, through the bare regions, a FileInspector '
+        'subclass, and mid-stream chained regions - exhaustive within the '
+        'bound. Real inspectors and InspectWrapper: generated content x '
+        'schedule x query plan, all ten verdicts compared with a reference '
+        'schedule, retention fidelity after every chunk - sampled. '
+        'Relational oracle, so it cannot be wrong about formats; recorded '
+        'findings F-b/F-c/F-n are routed by predicate.',
+        'Blind to defects identical under all schedules; post-error state of '
+        'an inspector that raised is outside the statement; streams <= 3 MiB.',
+        'DESIGN.md section 4 C01'),
     'C13': (
         'model-based testing: exhaustive short histories + Hypothesis '
         'rule-based state machine against a reference model',
